@@ -790,4 +790,12 @@ B('KD-position-check-removed', ['C05', 'C09', 'C02'], 'index_level.py', 'IndexLe
 B('SK-keys-consolidated', ['C12'], 'frame.py', 'Frame.sort_values',
   '                cfs = self._blocks._extract(column_key=iloc_key) # get TypeBlocks\n                cfs_is_array = False', '                cfs = self._blocks._extract_array(column_key=iloc_key)\n                cfs_is_array = True', 'I.sort-keys-own-dtype', 'Frame.sort_values')
 
+# ---------------------------------------------------------------------------------- nullable kinds (C14, C15)
+B('NK-argminmax-skips-nat', ['C14', 'C15'], 'util.py', '_argminmax_2d',
+  '    isna = isna_array(array)\n\n    isna_axis = isna.any(axis=axis)', '    if array.dtype.kind not in DTYPE_INEXACT_KINDS and array.dtype.kind != DTYPE_OBJECT_KIND:\n        return ufunc(array, axis=axis)\n    isna = isna_array(array)\n\n    isna_axis = isna.any(axis=axis)', 'I.nullable-kinds', '_argminmax_2d')
+B('NK-isna-nat-dropped', ['C14'], 'util.py', 'isna_array',
+  '    elif kind in DTYPE_NAT_KINDS:\n        return np.isnat(array)\n', '', ('I.nullable-kinds', 'G3'), 'isna_array')
+N('NK-int-shortcut', ['C14', 'C15'], 'util.py', '_argminmax_2d',
+  '    isna = isna_array(array)\n\n    isna_axis = isna.any(axis=axis)', '    if array.dtype.kind in DTYPE_INT_KINDS:\n        return ufunc(array, axis=axis)\n    isna = isna_array(array)\n\n    isna_axis = isna.any(axis=axis)')
+
 VARIANTS = V
